@@ -687,7 +687,7 @@ pub const DEF: PropertyDef = PropertyDef {
            faults): arity 2/3/6/7/12, index into an empty array, source/name index len+k, -1-k or correct+-m*2^32, continuation bit on the \
            last digit, a 14..20-digit value, a foreign character; sweep: a foreign character at every byte offset of 40 (400) documents. \
            Oracle: the twin decodes, the faulted document (confirmed malformed by the independent reader) must be Err; every malformed \
-           segment must also be refused by parse_vlq_segment. Non-trivial = twin has >= 3 segments and the fault is not at the very end",
+           segment must also be refused by parse_vlq_segment. repeated_segments: byte-identical segments repeated until the running source / name index leaves the array (either way). Non-trivial = twin has >= 3 segments and the fault is not at the very end",
     assumptions: &[
         "any error variant is accepted (the statement promises an error, not which)",
         "generated columns / original positions leaving the u32 range are not among the listed faults and are not injected",
